@@ -742,9 +742,10 @@ def oracle(sc, obs, res, case):
             from zeroconf import _dns as _d
 
             for r in an + au + ad:
-                for nm in (r.name, getattr(r, "alias", None)):
+                # owner name, pointer alias, and the names inside the rdata (SRV target, NSEC next name)
+                for nm in (r.name, getattr(r, "alias", None), getattr(r, "server", None), getattr(r, "next_name", None)):
                     if r.ttl > 0 and nm in ab and nm not in own:
-                        if isinstance(r, _d.DNSAddress) and nm == legacy_host and nm == r.name:
+                        if nm == legacy_host and ((isinstance(r, _d.DNSAddress) and nm == r.name) or (isinstance(r, _d.DNSService) and nm == r.server and nm != r.name)):
                             # KNOWN FINDING: server=None made the first instance name the host name; a rename does not move it
                             viol.append(("C09:server-none-keeps-conflicting-host-name",
                                          "legacy server=None: after the rename the address records are still announced under the conflicting instance name %r" % (nm,)))
